@@ -26,6 +26,14 @@ Reading
 * Domain: notes carry a voice >= 1 and staves are >= 1; other inputs are only compared with the model (no oracle claim).
 * `load_score_as_part(f)` is `merge_parts(load_score(f).parts)` in voice mode; it is run on the multi-part scores of the
   implementation's tests/data, as are merge_parts(Score), (score.parts), (score.part_structure) and (first PartGroup).
+* "the parts of a score": the parts the caller sees when merge_parts is called - `score.parts` of a Score object AS IT IS
+  THEN (after `score[i] = part`, `score.parts = [...]`, append / pop / reverse, or in the Score returned by
+  unfold_part_maximal / unfold_part_minimal, which replace `.parts` only), the Part objects reached through `.children`
+  from a group / list / tuple.  `Score.part_structure` is never updated by the implementation and is not "the parts".
+* "All scores ...": the property quantifies over the STATE of the inputs at the time of the call, whatever history led
+  to it: every voice, staff, pitch, tie and divisions value is the one the objects carry then (attributes assigned in
+  place after the part was built and after any read-only view of it was computed: `note.staff = 2` ...), and an
+  object that is on a timeline by its end only counts with its staff like any other.
 """
 import math
 import random
@@ -39,7 +47,7 @@ import gen_score as G
 
 PROPERTY = "C15"
 DRIVER = "drv_c15"
-PROPS = ["PartituraModel.Props.C15", "PartituraModel.Props.C15Ext"]
+PROPS = ["PartituraModel.Props.C15", "PartituraModel.Props.C15Ext", "PartituraModel.Props.C15Hist"]
 TRUSTED = [
     "Part.iter_all() / TimePoint registries as the source of the abstract element lists (their order is what the model "
     "sorts by: time point, class walk of Gen/Classes.lean, insertion); objects that only have an end are read from the "
@@ -55,6 +63,11 @@ TRUSTED = [
     "harness/translate_c15.py: the ast reading of merge_parts (class tuples per mode, isinstance guards of the voice / "
     "staff assignments, sources of the unique voices / staves, the constant 4, class names of the docstring); a source "
     "it cannot read yields extractionOk = false and breaks C15.source_tables",
+    "histories of a PART (reads, in-place attribute edits) are not modelled: the model is a function of the state of "
+    "the parts at the time of the call, which the harness reads from the objects after the history; that merge_parts "
+    "depends on nothing else is what the differential run over generated histories checks",
+    "Score.__setitem__ / list operations on Score.parts as ScoreOp.run of Model/Merge.lean; unfold_part_maximal / "
+    "unfold_part_minimal of a Score are modelled as an assignment to .parts of whatever parts they produce",
     "load_score_as_part: the loaders are not modelled; the score it loads is observed through a wrapper of "
     "partitura.io.load_score that calls the original and records the result before merge_parts modifies it",
 ]
@@ -74,7 +87,14 @@ RULE = ("corpus + seeded scores / part groups / nested groups / lists of 1-4 par
         "to notes, slurs that only have an end, parts whose first time point is later than 0 (each at its own offset), "
         "one element of every TimedObject class in every part, x the three reassign modes (+ rejected modes and "
         "multi-division parts) + multi-part scores of tests/data (MusicXML, MEI, kern, MIDI) through "
-        "load_score_as_part, merge_parts(Score), (score.parts), (part_structure), (first PartGroup); distinct = distinct "
+        "load_score_as_part, merge_parts(Score), (score.parts), (part_structure), (first PartGroup); "
+        "x HISTORIES: parts built with interleaved read-only views and re-added notes (gen_score `warm` masks), then "
+        "read (number_of_staves, clef_map, note arrays, MusicXML export, every map) and edited IN PLACE before the merge "
+        "(staff / voice of a note, of all notes of a voice, of a clef / direction raised above the highest one, staff "
+        "removed, pitch, tie removed, divisions multiplied), end-only directions that carry the highest staff; "
+        "x every input FORM: list, tuple, group, nested groups, Score, and Score objects whose parts were replaced "
+        "after construction (score[i] = p, score.parts = [...], append, pop, reverse, unfold_part_maximal / _minimal "
+        "of generated scores with a repeat and of the test files); distinct = distinct "
         "request line; trivial = rejected input or an input outside the domain (a note without voice ...)")
 LEVEL_TEXT = ("Lean 4 theorems over all lists of abstract parts: exact time preservation under lcm rescaling, sounding rows "
               "equal to the rescaled rows of the inputs, voice/staff disjointness across and preservation within parts by "
@@ -83,7 +103,12 @@ LEVEL_TEXT = ("Lean 4 theorems over all lists of abstract parts: exact time pres
               "(discard_table, source_tables, doc_table), single part returned as is, dispatch on Score / nested groups / "
               "lists (dispatch_*), load_score_as_part = voice-mode merge, references between objects preserved and "
               "characterised (refs_preserved, dangling_iff, no_dangling), end-only objects transferred, order of "
-              "iteration (merged_order), several divisions values rejected; the model is tied to merge_parts and "
+              "iteration (merged_order), several divisions values rejected, a Score is merged through the parts it holds at "
+              "the time of the call after any history of replacements (score_sees_parts, score_merged_contents, "
+              "score_assign_last, stale_structure_witness), renumbered voices / staves of later parts lie strictly "
+              "above those of earlier parts and the offsets are the least possible, so that every element - also one "
+              "that is on the timeline by its end only - must be counted as it is at the time of the call "
+              "(staves_ordered, staff_offset_tight, voices_ordered, voice_offset_tight); the model is tied to merge_parts and "
               "load_score_as_part by a differential run on generated scores and on the multi-part scores of tests/data "
               "(every kept object's identity, class, times, voice, staff, references; time points and their quarter; "
               "note arrays).")
@@ -198,6 +223,17 @@ def gen_part(rng, pid, divs, bars, voices, staves, opts):
                 d["fermatas"].append(rng.choice(plain)["id"])
         if ns and opts.get("end_only") and rng.random() < 0.5:
             d["spans"].append(["Slur", None, rng.choice(ns)["id"]])   # a slur whose start is not in the score
+    if opts.get("end_only") and nostaff != "all" and rng.random() < 0.6:
+        # a direction whose start is not in the score (a wedge / octave line that began before the excerpt): it is on
+        # the timeline by its end only and carries a staff - often the highest of the part, or one no other element has
+        d["endonly"] = []
+        for _ in range(rng.choice([1, 1, 2])):
+            cn = rng.choice(["DecreasingLoudnessDirection", "IncreasingLoudnessDirection", "OctaveShiftDirection",
+                             "SustainPedalDirection", "DynamicTempoDirection"])
+            st = rng.choice([staves + 1, staves + 1, staves + 2, staves, 1])
+            kw = {"staff": st} if cn == "SustainPedalDirection" else {"shift_type": "up", "staff": st} \
+                if cn == "OctaveShiftDirection" else {"text": "x", "staff": st}
+            d["endonly"].append([cn, rng.randrange(1, end + 1), kw])
     # other elements
     nx = rng.choice([0, 0, 1, 2, 4, 8]) if not opts.get("allclasses") else 0
     for _ in range(nx):
@@ -261,7 +297,9 @@ def gen_shape(rng, n, single_kind=None):
                 "list_group": {"score": False, "shape": ["many", [["G", [leaf]]]]},
                 "score_group": {"score": True, "shape": ["one", ["G", [leaf]]]},
                 "nested": {"score": False, "shape": ["many", [["G", [["G", [leaf]], ["G", []]]]]]}}[kind]
-    kind = rng.choice(["list", "list", "score", "score", "group", "score_group", "nested", "nested"])
+    kind = rng.choice(["list", "list", "score", "score", "group", "score_group", "nested", "nested", "tuple"])
+    if kind == "tuple":
+        return {"score": False, "tuple": True, "shape": ["many", leaves]}
     if kind in ("list", "score"):
         return {"score": kind == "score", "shape": ["many", leaves]}
     if kind in ("group", "score_group"):
@@ -287,6 +325,8 @@ def gen_case(rng, mode=None, nparts=None, divs=None, **o):
         if nparts:
             divs = (divs * 4)[:nparts]
     n = len(divs)
+    # parts that are not in the argument when it is built (they replace parts of a Score later)
+    divs = list(divs) + [rng.choice(divs) for _ in range(o.get("spare", 0))]
     pool = [ts for ts in TS_POOL if all((Fraction(4 * ts[0], ts[1]) * dv).denominator == 1 for dv in divs)]
     ts = rng.choice(pool)
     blen = Fraction(4 * ts[0], ts[1])
@@ -307,7 +347,119 @@ def gen_case(rng, mode=None, nparts=None, divs=None, **o):
         if o.get("nostaff"):
             opts["nostaff"] = o["nostaff"]
         parts.append(gen_part(rng, "P%d" % i, dv, bars, voices, staves, opts))
-    return {"k": "merge", "mode": mode or rng.choice(MODES), "arg": gen_shape(rng, n, o.get("single_kind")), "parts": parts}
+    d = {"k": "merge", "mode": mode or rng.choice(MODES), "arg": gen_shape(rng, n, o.get("single_kind")), "parts": parts}
+    if o.get("shape_kind"):
+        leaves = [["P", i] for i in range(n)]
+        rng.shuffle(leaves)
+        d["arg"] = {"score": o["shape_kind"] == "score", "shape": ["many", leaves]}
+        if o["shape_kind"] == "tuple":
+            d["arg"]["tuple"] = True
+    return d
+
+
+# ---------------------------------------------------------------------------------------------- histories
+NAV = {"Repeat", "Ending", "DaCapo", "Fine", "DalSegno", "Segno", "ToCoda", "Coda", "Segment"}
+READS = ["staves", "staves", "clef_map", "clef_map", "xml", "xml", "na", "na", "views", "full"]
+EDIT_KINDS = ["staff", "staff", "staff", "voice", "voice", "voiceall", "xstaff", "nostaff", "pitch", "untie", "divs"]
+
+
+def add_history(rng, d, force=None, nsteps=None, first=False):
+    """What happens to the parts between their construction and the merge: read-only views interleaved with the
+    construction (gen_score `warm` masks), then steps `read` (a view is computed: whatever it memoises is now
+    warm) and in-place edits of attributes, without any Part.add / Part.remove:
+      ["read", part, kind]                       kind in READS
+      ["staff", part, k, v]                      the k-th note or rest (mod their number) gets staff v; v = ["max", n]
+                                                 stands for (highest staff of the part as it is then) + n; None = no staff
+      ["voice", part, k, v] / ["voiceall", ...]  the same for the voice of that note / of every note of its voice
+      ["xstaff", part, k, v]                     the same for the k-th clef / direction / words
+      ["pitch", part, k, n]                      the k-th pitched note is moved n octaves
+      ["untie", part, k]                         the k-th tie is removed
+      ["divs", part, n]                          the divisions value of the part is multiplied by n
+    The property speaks about the parts as they are when merge_parts is called."""
+    order = flat_order(d["arg"])
+    for pd in d["parts"]:
+        if rng.random() < 0.4:
+            pd["warm"] = rng.choice([16, 16, 48, 31, 64 | 16, rng.randrange(1, 128)])
+    edits = []
+    for step in range(nsteps or rng.choice([1, 1, 2, 3])):
+        early = order[:-1] if len(order) > 1 else order
+        pi = order[0] if first else rng.choice(early) if rng.random() < 0.75 else rng.choice(order)
+        if force or rng.random() < 0.85:
+            edits.append(["read", pi, rng.choice(READS)])
+        kind = force or rng.choice(EDIT_KINDS)
+        k = rng.randrange(0, 1000)
+        up = rng.choice([["max", 1], ["max", 1], ["max", 2], ["max", 3]])
+        if kind in ("staff", "xstaff"):
+            edits.append([kind, pi, k, up if force else rng.choice([up, up, up, 1, rng.randint(1, 4)])])
+        elif kind == "nostaff":
+            edits.append(["staff", pi, k, None])
+        elif kind in ("voice", "voiceall"):
+            edits.append([kind, pi, k, up if force else rng.choice([up, up, rng.randint(1, 6)])])
+        elif kind == "pitch":
+            edits.append(["pitch", pi, k, rng.choice([-1, 1, 2])])
+        elif kind == "untie":
+            edits.append(["untie", pi, k])
+        elif kind == "divs":
+            edits.append(["divs", pi, rng.choice([2, 3, 5])])
+        if not force and rng.random() < 0.25:
+            edits.append(["read", pi, rng.choice(READS)])
+    d["edits"] = edits
+    return d
+
+
+def prepare_unfold(d):
+    """make the parts unfoldable: no stray navigation marks, one repeat over the first measure of every part"""
+    for pd in d["parts"]:
+        pd["extras"] = [x for x in pd["extras"] if x[0] not in NAV]
+        if pd["measures"]:
+            pd["repeat"] = [pd["measures"][0][0], pd["measures"][0][1]]
+
+
+def add_score_ops(rng, d, kinds=None):
+    """A history of the Score object between `Score(x)` and `merge_parts(score)`; d["arg"]["score"] must be set and
+    the parts that are not in the shape are spare.
+      ["setitem", i, k]   score[i] = part k          ["assign", [k ...]]  score.parts = [those parts]
+      ["append", k]       score.parts.append(part k) ["pop", i]  ["reverse"]   (list operations on score.parts)
+      ["read"]            score.note_array()
+      ["unfold", "max" | "min"]   score = unfold_part_maximal(score) / unfold_part_minimal(score)   (last step only)"""
+    arg = d["arg"]
+    cur = flat_order(arg)
+    allp = list(range(len(d["parts"])))
+    ops = []
+    todo = list(kinds) if kinds else [rng.choice(["setitem", "setitem", "setitem", "assign", "assign", "append", "pop",
+                                                  "reverse", "unfold", "unfold"]) for _ in range(rng.choice([1, 1, 2, 3]))]
+    for kind in todo:
+        out = [k for k in allp if k not in cur]
+        if rng.random() < 0.3:
+            ops.append(["read"])
+        if kind == "setitem" and out and cur:
+            i = rng.randrange(len(cur))
+            k = rng.choice(out)
+            ops.append(["setitem", i, k])
+            cur[i] = k
+        elif kind == "append" and out:
+            k = rng.choice(out)
+            ops.append(["append", k])
+            cur.append(k)
+        elif kind == "pop" and len(cur) >= 2:
+            i = rng.randrange(len(cur))
+            ops.append(["pop", i])
+            cur.pop(i)
+        elif kind == "assign":
+            new = rng.sample(allp, rng.randint(1, len(allp)))
+            if new == cur:
+                new = new[::-1]
+            ops.append(["assign", new])
+            cur = list(new)
+        elif kind == "unfold":
+            prepare_unfold(d)
+            ops.append(["unfold", rng.choice(["max", "max", "min"])])
+            break
+        else:
+            ops.append(["reverse"])
+            cur.reverse()
+    arg["ops"] = ops
+    return d
 
 
 # scores of the implementation's own test data with two or more parts (and some with one part inside groups), by cost
@@ -334,17 +486,39 @@ FILES_LARGE = [
 VIAS = ["load", "score", "parts", "structure", "group"]
 
 
-def file_case(f, via, mode):
-    return {"k": "file", "file": f, "via": via, "mode": "voice" if via == "load" else mode}
+def file_case(f, via, mode, ops=None, edits=None):
+    d = {"k": "file", "file": f, "via": via, "mode": "voice" if via == "load" else mode}
+    if ops:
+        d["ops"] = ops
+    if edits:
+        d["edits"] = edits
+    return d
+
+
+# histories of a loaded Score (symbolic: see concrete_ops) and files with repeats, for the unfold functions
+FILE_OPS = [[["swapends"]], [["rotate"]], [["droplast"]], [["reverse"]], [["read"], ["rotate"]],
+            [["unfold", "max"]], [["unfold", "min"]]]
+FILES_REPEAT = ["tests/data/kern/double_repeat_example.krn", "tests/data/kern/fine_with_repeat.krn",
+                "tests/data/musicxml/test_multi_part.xml", "tests/data/mei/test_merge_voices2.mei"]
+FILE_EDITS = [[["read", 0, "staves"], ["staff", 0, 0, ["max", 1]]], [["read", 0, "xml"], ["voiceall", 0, 1, ["max", 2]]],
+              [["read", 0, "views"], ["xstaff", 0, 0, ["max", 1]], ["read", 0, "clef_map"]]]
 
 
 def file_cases(rng, tier):
     # (the scores of the two loaders that merge_parts used to reject, fixes/C15-7 and C15-8, are in corpus/C15/w8)
     yield file_case("tests/data/musicxml/test_merge_voices2.xml", "structure", "auto")   # [[[P, P]], P]
     if tier == "quick":
-        for _ in range(6):
+        for _ in range(5):
             yield file_case(rng.choice(FILES_SMALL), rng.choice(VIAS), rng.choice(MODES))
+        yield file_case(rng.choice(FILES_SMALL), "score", rng.choice(MODES), ops=rng.choice(FILE_OPS[:5]))
+        yield file_case(rng.choice(FILES_REPEAT), "score", rng.choice(MODES), ops=rng.choice(FILE_OPS[5:]))
+        yield file_case(rng.choice(FILES_SMALL), rng.choice(VIAS[1:]), "staff", edits=rng.choice(FILE_EDITS))
         return
+    for f in FILES_SMALL:
+        for ops in FILE_OPS:
+            yield file_case(f, "score", rng.choice(MODES), ops=ops)
+        for via in VIAS[1:]:
+            yield file_case(f, via, rng.choice(MODES), edits=rng.choice(FILE_EDITS))
     for f in FILES_SMALL:
         yield file_case(f, "load", "voice")
         for via in VIAS[1:]:
@@ -365,7 +539,7 @@ def _finding_registered(sig):
 
 
 def cases(rng, tier):
-    n = {"quick": 72, "thorough": 2400, "search": 5000}.get(tier, 72)
+    n = {"quick": 56, "thorough": 2000, "search": 5000}.get(tier, 56)
     # deterministic block: every class in every part, every mode; the division tuples of the property text
     for mode in MODES:
         yield gen_case(rng, mode, divs=[3, 4], allclasses=True)
@@ -389,22 +563,43 @@ def cases(rng, tier):
     # objects that are on a timeline by their end only (a slur whose start is not in the score), in every mode
     for mode in MODES:
         yield gen_case(rng, mode, divs=[2, 3], end_only=True, p_refs=1.0)
+    # histories: a view of the first part is computed (number of staves, clef map, export ...), then the highest staff
+    # / voice of that part is raised in place, then the parts are merged - in every mode, through every kind of edit
+    for mode in MODES:
+        yield add_history(rng, gen_case(rng, mode, divs=[2, 3], shape_kind="list"), force="staff", nsteps=1, first=True)
+        yield add_history(rng, gen_case(rng, mode, divs=[4, 3]), force=rng.choice(["voice", "voiceall"]), nsteps=1, first=True)
+        yield add_history(rng, gen_case(rng, mode, divs=[2, 2, 3], end_only=True, p_refs=1.0), force="xstaff", nsteps=2)
+    for kind in ("nostaff", "pitch", "untie", "divs"):
+        yield add_history(rng, gen_case(rng, divs=[3, 4]), force=kind, nsteps=2)
+    # Score objects whose parts were replaced after construction, every kind of replacement once
+    for kinds in (["setitem"], ["assign"], ["append"], ["pop"], ["reverse"], ["unfold"], ["setitem", "pop"], ["append", "unfold"]):
+        yield add_score_ops(rng, gen_case(rng, divs=[rng.choice([2, 4]), 3], spare=2, shape_kind="score"), kinds)
+    yield add_score_ops(rng, gen_case(rng, divs=[4, 6], spare=0, shape_kind="score"), ["pop"])   # one part is left
+    yield gen_case(rng, divs=[3, 4, 6], shape_kind="tuple")
     yield from file_cases(rng, tier)
     overflow = _finding_registered("auto-voice-overflow")
     for i in range(n):
         r = rng.random()
         if r < 0.06:
-            yield gen_case(rng, nparts=1)
+            c = gen_case(rng, nparts=1)
         elif r < 0.2:
-            yield gen_case(rng, shift=True)
+            c = gen_case(rng, shift=True)
         elif r < 0.3:
-            yield gen_case(rng, end_only=True, p_refs=1.0)
+            c = gen_case(rng, end_only=True, p_refs=1.0)
         elif r < 0.12:
-            yield gen_case(rng, allclasses=True)
+            c = gen_case(rng, allclasses=True)
         elif r < 0.16 and overflow:
-            yield gen_case(rng, "auto", maxv=7)
+            c = gen_case(rng, "auto", maxv=7)
+        elif r < 0.45:
+            c = gen_case(rng, spare=rng.choice([0, 1, 2]))
+            if not c["arg"]["score"]:
+                c["arg"] = {"score": True, "shape": c["arg"]["shape"]}
+            add_score_ops(rng, c)
         else:
-            yield gen_case(rng)
+            c = gen_case(rng)
+        if rng.random() < 0.35:
+            add_history(rng, c)
+        yield c
 
 
 # ---------------------------------------------------------------------------------------------- building
@@ -414,6 +609,10 @@ def build_one(pd):
     import partitura.score as S
 
     p = G.build_part(pd)
+    for cn, en, kw in pd.get("endonly", []):
+        p.add(getattr(S, cn)(**kw), None, en)
+    if pd.get("repeat"):
+        p.add(S.Repeat(), pd["repeat"][0], pd["repeat"][1])
     if not (pd.get("spans") or pd.get("beams") or pd.get("fermatas")):
         return p
     byid = {n.id: n for n in p.iter_all(S.GenericNote, include_subclasses=True)}
@@ -454,7 +653,176 @@ def build_arg(spec, parts):
 
     sh = spec["shape"]
     x = tree(sh[1]) if sh[0] == "one" else [tree(c) for c in sh[1]]
+    if spec.get("tuple") and sh[0] == "many":
+        x = tuple(x)
     return S.Score(x) if spec["score"] else x
+
+
+def quiet(f):
+    try:
+        return f()
+    except Exception:
+        return None
+
+
+def do_read(p, kind):
+    """a read-only view of a part (exceptions are swallowed: the view may legitimately refuse the part)"""
+    import partitura
+
+    if kind == "staves":
+        quiet(lambda: p.number_of_staves)
+    elif kind == "clef_map":
+        quiet(lambda: p.clef_map(0))
+    elif kind == "xml":
+        quiet(lambda: partitura.save_musicxml(p))
+    elif kind == "na":
+        quiet(lambda: p.note_array(include_staff=True))
+        quiet(lambda: p.notes_tied)
+    else:
+        G.warm_readers(p, kind == "full")
+
+
+def _staffed(p, S):
+    """the clefs, words and directions of a part, end-only ones included"""
+    out = []
+    for cls in (S.Clef, S.Words, S.Direction):
+        out += list(p.iter_all(cls, include_subclasses=True))
+    out += [e for e in end_only_objects(p) if isinstance(e, (S.Clef, S.Words, S.Direction))]
+    return out
+
+
+def apply_edits(edits, parts, S):
+    """the steps of `add_history` on the built parts: attribute assignments only (no Part.add / Part.remove)"""
+    for ed in edits:
+        kind, p = ed[0], parts[ed[1]]
+        if kind == "read":
+            do_read(p, ed[2])
+            continue
+        if kind == "divs":
+            p.set_quarter_duration(0, int(p._quarter_durations[0]) * ed[2])
+            continue
+        notes = list(p.iter_all(S.GenericNote, include_subclasses=True))
+        if not notes:
+            continue
+        k = ed[2]
+
+        def value(v, attr):
+            if isinstance(v, list):
+                top = max([getattr(e, attr, None) or 1 for e in notes + (_staffed(p, S) if attr == "staff" else [])])
+                return top + v[1]
+            return v
+
+        if kind == "staff":
+            notes[k % len(notes)].staff = value(ed[3], "staff")
+        elif kind == "voice":
+            notes[k % len(notes)].voice = value(ed[3], "voice")
+        elif kind == "voiceall":
+            old = notes[k % len(notes)].voice
+            new = value(ed[3], "voice")
+            for n in notes:
+                if n.voice == old:
+                    n.voice = new
+        elif kind == "xstaff":
+            xs = _staffed(p, S)
+            if xs:
+                xs[k % len(xs)].staff = value(ed[3], "staff")
+        elif kind == "pitch":
+            ns = [n for n in notes if type(n) is S.Note]
+            if ns:
+                n = ns[k % len(ns)]
+                n.octave = n.octave + ed[3]
+        elif kind == "untie":
+            ns = [n for n in notes if isinstance(n, S.Note) and n.tie_next is not None]
+            if ns:
+                n = ns[k % len(ns)]
+                n.tie_next.tie_prev = None
+                n.tie_next = None
+
+
+def part_leaves(x, S):
+    """the Part objects under a part / group / list of them: plain recursion through `.children`"""
+    if isinstance(x, S.Part):
+        return [x]
+    kids = x if isinstance(x, (list, tuple)) else x.children
+    return [p for c in kids for p in part_leaves(c, S)]
+
+
+def concrete_ops(ops, n):
+    """symbolic steps of the file cases, for a score with n parts"""
+    out = []
+    for op in ops:
+        if op[0] == "swapends":
+            out += [["setitem", 0, n - 1], ["setitem", n - 1, 0]] if n > 1 else []
+        elif op[0] == "rotate":
+            out.append(["assign", list(range(1, n)) + [0]])
+        elif op[0] == "droplast":
+            out += [["pop", n - 1]] if n > 1 else []
+        else:
+            out.append(op)
+    return out
+
+
+def apply_score_ops(arg, spec, ops, parts, S):
+    """run the history `ops` (see add_score_ops) on the Score `arg`.  Returns (arg, spec, parts, order, mops, ok):
+    the Score to merge, the description of what it was built from, the universe of Part objects, the indices of the
+    parts the caller now sees (computed from the description of the steps, not read from the object), the steps as
+    the model takes them, and whether `arg.parts` holds exactly those parts."""
+    order = flat_order(spec)
+    mops = []
+    for op in ops:
+        k = op[0]
+        if k == "read":
+            quiet(lambda: arg.note_array())
+            continue
+        if k == "unfold":
+            u = (S.unfold_part_maximal if op[1] == "max" else S.unfold_part_minimal)(arg)
+            seen = list(u.parts)
+            if len(seen) != len(order) or any(not isinstance(p, S.Part) for p in seen):
+                raise RuntimeError("unfolding changed the number of parts")
+            stale = [p for p in part_leaves(list(u.part_structure), S)]
+            parts = stale + [p for p in seen if not any(p is q for q in stale)]
+            index = {id(p): i for i, p in enumerate(parts)}
+            spec = {"score": True, "shape": ["many", [structure_tree(x, index, S) for x in u.part_structure]]}
+            order = [index[id(p)] for p in seen]
+            return u, spec, parts, order, [["assign", list(order)]], True
+        if k == "setitem":
+            arg[op[1]] = parts[op[2]]
+            order[op[1]] = op[2]
+        elif k == "assign":
+            arg.parts = [parts[i] for i in op[1]]
+            order = list(op[1])
+        elif k == "append":
+            arg.parts.append(parts[op[1]])
+            order.append(op[1])
+        elif k == "pop":
+            arg.parts.pop(op[1])
+            order.pop(op[1])
+        elif k == "reverse":
+            arg.parts.reverse()
+            order.reverse()
+        else:
+            raise RuntimeError("unknown step %r" % (op,))
+        mops.append(op)
+    now = list(arg.parts)
+    ok = len(now) == len(order) and all(a is parts[i] for a, i in zip(now, order))
+    return arg, spec, parts, order, mops, ok
+
+
+class Input:
+    pass
+
+
+def build_input(d, S):
+    """everything of a generated case up to the call: parts, their history, the argument, its history"""
+    x = Input()
+    parts = build_parts(d)
+    apply_edits(d.get("edits") or [], parts, S)
+    spec = d["arg"]
+    x.arg = build_arg(spec, parts)
+    x.spec, x.parts, x.order, x.mops, x.parts_ok = spec, parts, flat_order(spec), [], True
+    if spec.get("score"):
+        x.arg, x.spec, x.parts, x.order, x.mops, x.parts_ok = apply_score_ops(x.arg, spec, spec.get("ops") or [], parts, S)
+    return x
 
 
 def flat_order(spec):
@@ -590,6 +958,25 @@ def enc_shape(spec, enc_part):
     return "one " + tree(sh[1]) if sh[0] == "one" else "many " + W.lst(tree, sh[1])
 
 
+def enc_arg(spec, mops, enc_part):
+    """a Score goes to the model as what it was built from plus its history (Model.Merge.Arg)"""
+    base = enc_shape(spec, enc_part)
+    if not spec.get("score"):
+        return base
+
+    def op(o):
+        if o[0] == "setitem":
+            return "setitem %d P %s" % (o[1], enc_part[o[2]])
+        if o[0] == "assign":
+            return "assign " + W.lst(lambda i: "P " + enc_part[i], o[1])
+        if o[0] == "append":
+            return "append P " + enc_part[o[1]]
+        if o[0] == "pop":
+            return "pop %d" % o[1]
+        return "reverse"
+    return "score " + base + " " + W.lst(op, mops)
+
+
 def f_tail(e, oid, S):
     return W.f_tuple(W.f_opt(W.f_int, oid.get(e)), type(e).__name__, W.f_opt(W.f_int, None if e.end is None else e.end.t),
                      W.f_opt(W.f_int, getattr(e, "voice", None)), W.f_opt(W.f_int, getattr(e, "staff", None)),
@@ -621,12 +1008,13 @@ class Prep:
     pass
 
 
-def prepare(parts, spec, S):
-    """abstract description of the inputs, taken BEFORE the call (merge_parts modifies the objects)"""
+def prepare(parts, spec, S, order=None, mops=()):
+    """abstract description of the inputs, taken BEFORE the call (merge_parts modifies the objects); `order`: the parts
+    the caller sees, when that is not what the description `spec` flattens to (a Score with a history `mops`)"""
     pr = Prep()
     pr.parts = parts
     pr.spec = spec
-    pr.order = flat_order(spec)
+    pr.order = flat_order(spec) if order is None else list(order)
     oid = pr.oid = Oids()
     pr.elems = {}
     pr.tails = {}
@@ -648,7 +1036,7 @@ def prepare(parts, spec, S):
             if isinstance(e, S.Note):
                 if e.duration_tied != e.duration + sum(x.duration for x in e.tie_next_notes):
                     raise RuntimeError("duration_tied is not the sum over tie_next_notes")
-    pr.shape_txt = enc_shape(spec, enc_part)
+    pr.shape_txt = enc_arg(spec, list(mops), enc_part)
     pr.snap = snapshot(parts, S)
     pr.fp_before = {pi: G.fingerprint_part(p, with_ids=True) for pi, p in enumerate(parts)} if len(pr.order) == 1 else None
     # ---- is the input in the domain of the property?
@@ -681,12 +1069,22 @@ def evaluate(d):
     ev = Eval()
     mode = d["mode"]
     op = "merge"
+    extra = {"score": False, "parts_ok": True, "twin": None}
     if d.get("k", "merge") == "merge":
-        spec = d["arg"]
-        parts = build_parts(d)
-        fresh = build_parts(d)
-        arg = build_arg(spec, parts)
-        pr = prepare(parts, spec, S)
+        try:
+            x = build_input(d, S)
+            tw = build_input(d, S)
+        except Exception as e0:
+            if not any(o[0] == "unfold" for o in d["arg"].get("ops") or []):
+                raise
+            ev.key = None   # the generated score cannot be unfolded: nothing to merge
+            ev.info = {"unfold": repr(e0)[:100]}
+            return ev
+        parts, fresh, arg = x.parts, tw.parts, x.arg
+        if tw.order != x.order or len(tw.parts) != len(x.parts):
+            raise RuntimeError("the two builds of the input differ")
+        extra = {"score": bool(x.spec.get("score")), "parts_ok": x.parts_ok, "twin": tw.arg}
+        pr = prepare(parts, x.spec, S, x.order, x.mops)
         res, err = call(S.merge_parts, arg, mode)
     else:
         import partitura.io as IO
@@ -704,6 +1102,18 @@ def evaluate(d):
             if via == "parts":
                 sp = {"score": False, "shape": ["many", [["P", i] for i in range(len(parts))]]}
             return sp, (scr if via == "score" else list(parts) if via == "parts" else st)
+
+        def with_history(scr):
+            """the loaded score after the steps of the case (in-place edits of its parts, replacements of its parts)"""
+            x = Input()
+            x.parts = list(scr.parts)
+            apply_edits(d.get("edits") or [], x.parts, S)
+            x.spec, x.arg = spec_of(scr, x.parts)
+            x.order, x.mops, x.parts_ok = flat_order(x.spec), [], True
+            if via == "score":
+                x.arg, x.spec, x.parts, x.order, x.mops, x.parts_ok = apply_score_ops(
+                    x.arg, x.spec, concrete_ops(d.get("ops") or [], len(x.parts)), x.parts, S)
+            return x
 
         fscr, e0 = call(IO.load_score, path)
         if e0 is not None:
@@ -738,14 +1148,30 @@ def evaluate(d):
             scr, e1 = call(IO.load_score, path)
             if e1 is not None:
                 raise RuntimeError("second load failed")
-            parts = list(scr.parts)
-            spec, arg = spec_of(scr, parts)
-            pr = prepare(parts, spec, S)
+            try:
+                x = with_history(scr)
+                tw = with_history(fscr)
+            except Exception as e0:
+                if not any(o[0] == "unfold" for o in d.get("ops") or []):
+                    raise
+                ev.key = None   # the loaded score cannot be unfolded: nothing to merge
+                ev.info = {"file": d["file"], "unfold": repr(e0)[:100]}
+                return ev
+            parts, fresh, arg = x.parts, tw.parts, x.arg
+            if tw.order != x.order or len(tw.parts) != len(x.parts):
+                raise RuntimeError("the two loads of the input differ")
+            extra = {"score": bool(x.spec.get("score")), "parts_ok": x.parts_ok, "twin": tw.arg}
+            pr = prepare(parts, x.spec, S, x.order, x.mops)
             res, err = call(S.merge_parts, arg, mode)
     oid, order, shape_txt, snap = pr.oid, pr.order, pr.shape_txt, pr.snap
     res_elems = None
 
     # ---- correspondence
+    if extra["score"]:
+        # the parts a Score holds after its history, as the caller reads them from the object
+        ev.requests.append("parts %s %s" % (W.s(mode), shape_txt))
+        index = {id(p): i for i, p in enumerate(parts)}
+        ev.impl.append(W.f_list(W.f_int, [index.get(id(q), -1) for q in list(arg.parts)]))
     ev.requests.append("%s %s %s" % (op, W.s(mode), shape_txt))
     if err is not None:
         ev.impl.append("err")
@@ -821,7 +1247,16 @@ def evaluate(d):
         ev.oracle.append("raises: %s(%d parts, reassign=%r) raised %r" % (
             "load_score_as_part" if op == "load" else "merge_parts", len(order), mode, err))
         return ev
-    ev.oracle += oracle(d, parts, order, snap, res, res_elems, mode, pr.fp_before, ref_rows, S, np)
+    if not extra["parts_ok"]:
+        ev.oracle.append("scoreparts: Score.parts does not hold the parts that were put there (item assignment / list "
+                         "operations on score.parts)")
+    ref_score = None
+    if extra["score"] and ref_rows is not None and extra["twin"] is not None:
+        # the score-level note array as the Score object itself gives it
+        sna2, e4 = call(extra["twin"].note_array)
+        if e4 is None:
+            ref_score = sorted((int(r["onset_div"]), int(r["pitch"]), int(r["duration_div"])) for r in sna2)
+    ev.oracle += oracle(d, parts, order, snap, res, res_elems, mode, pr.fp_before, ref_rows, S, np, ref_score)
     return ev
 
 
@@ -845,7 +1280,7 @@ def snapshot(parts, S):
     return snap
 
 
-def oracle(d, parts, order, snap, res, res_elems, mode, fp_before, ref_rows, S, np):
+def oracle(d, parts, order, snap, res, res_elems, mode, fp_before, ref_rows, S, np, ref_score=None):
     fails = []
     # ---- single part: returned as is, untouched
     if len(order) == 1:
@@ -887,6 +1322,10 @@ def oracle(d, parts, order, snap, res, res_elems, mode, fp_before, ref_rows, S, 
             fails.append("foreign: the merged part holds a %s that is in no input" % type(e).__name__)
     doc = doc_structural(S)
     first = order[0]
+    strangers = [s for key, s in snap.items() if s["part"] not in order and key in got]
+    if strangers:
+        fails.append("notinput: the merged part holds %d objects of parts that are not among the parts of the argument at the "
+                     "time of the call (first: %s of %s)" % (len(strangers), strangers[0]["name"], parts[strangers[0]["part"]].id))
     for key, s in snap.items():
         if s["part"] not in order:
             continue
@@ -989,6 +1428,9 @@ def oracle(d, parts, order, snap, res, res_elems, mode, fp_before, ref_rows, S, 
             if rows != ref_rows:
                 diff = [x for x in rows if x not in ref_rows][:3], [x for x in ref_rows if x not in rows][:3]
                 fails.append("sounding: (onset, pitch, duration) rows of the merged part differ from the score-level note array: only merged %r, only score %r" % diff)
+            if ref_score is not None and rows != ref_score:
+                diff = [x for x in rows if x not in ref_score][:3], [x for x in ref_score if x not in rows][:3]
+                fails.append("sounding: (onset, pitch, duration) rows of merge_parts(score) differ from score.note_array(): only merged %r, only score %r" % diff)
     return fails
 
 
